@@ -35,6 +35,7 @@ import (
 	"go.uber.org/zap"
 
 	"github.com/mimiro-io/datahub/internal/conf"
+	"github.com/mimiro-io/datahub/internal/verifhook"
 )
 
 type qresult struct {
@@ -463,6 +464,7 @@ func (s *Store) Open() error {
 
 	s.logger.Infof("setting BlockCacheSize: %v", opts.BlockCacheSize)
 	opts.Logger = BadgerLogger{Logger: s.logger.Named("badger")} // override the default getLogger
+	verifhook.TuneBadger(&opts)
 	db, err := badger.Open(opts)
 	if err != nil {
 		s.logger.Error(err)
@@ -1702,8 +1704,11 @@ func (s *Store) ExecuteTransaction(transaction *Transaction) error {
 		datasets[k] = dataset.(*Dataset)
 		s.MetaCtx.RegisterTransactionSink(k)
 
+		verifhook.Acquire("ds", k)
 		dataset.(*Dataset).WriteLock.Lock()
+		verifhook.Acquired("ds", k)
 		// release lock at end regardless
+		defer verifhook.Release("ds", k)
 		defer dataset.(*Dataset).WriteLock.Unlock()
 	}
 
@@ -1726,16 +1731,19 @@ func (s *Store) ExecuteTransaction(transaction *Transaction) error {
 	// new ids are asserted in the rolling id transaction of the store owning the datasets. That is not s
 	// when s is a contextual copy of the store (NewContextualStore), which has its own idtxn field.
 	// commit the owning store's id transaction, so that ids are committed before the data referring to them.
+	verifhook.Point("txn.beforeIDCommit")
 	for _, ds := range datasets {
 		if err := ds.store.commitIDTxn(); err != nil {
 			return err
 		}
 	}
+	verifhook.Point("txn.afterIDCommit")
 
 	err := txn.Commit()
 	if err != nil {
 		return err
 	}
+	verifhook.Point("txn.afterCommit")
 
 	// update the txn counts
 	for k, v := range updateCountsPerDataset {
@@ -1748,6 +1756,7 @@ func (s *Store) ExecuteTransaction(transaction *Transaction) error {
 		if err != nil {
 			return err
 		}
+		verifhook.Point("txn.afterUpdateDataset")
 	}
 
 	return nil
